@@ -1,5 +1,8 @@
 use std::cell::UnsafeCell;
 use std::mem::take;
+#[cfg(nucleo_verif)]
+use crate::verif::atomic::{self, AtomicBool, AtomicU32};
+#[cfg(not(nucleo_verif))]
 use std::sync::atomic::{self, AtomicBool, AtomicU32};
 use std::sync::Arc;
 
